@@ -85,6 +85,11 @@ fn main() {
         std::process::exit(2);
     };
     let ctx = Ctx::new(&id, tier);
+    let ctx = match id.as_str() {
+        "C03" => ctx.with_budget(50, 3000),
+        "C16" => ctx.with_budget(50, 1500),
+        _ => ctx,
+    };
     let rep = run(&ctx);
     let code = finish(&ctx, rep, &|c| rp(c));
     std::process::exit(code);
